@@ -10,7 +10,15 @@ R20c Message::Decrypt returns true only through AEAD success or a valid MDC on a
      the chunk tag was checked,
 R20e each AsymmetricVerify<ALGO> returns the success code (0) only together with libgcrypt's
      verdict: every exit returns gcry_pk_verify's result, a value known to be non-zero on that
-     path, or 0 under the fact that gcry_pk_verify returned 0."""
+     path, or 0 under the fact that gcry_pk_verify returned 0,
+R20g no octet of a signed text document is dropped: in the canonicalising loop of TextDocumentHash*
+     every iteration appends the current document octet to the hash input (a <CR> may be inserted,
+     nothing may be skipped),
+R20f framing of the signed hash input (RFC 4880 5.2.4; v5 per the draft the library follows): key
+     material is prefixed 0x99 | 2-octet length (v5: 0x9A | 4-octet length), user ids 0xB4 | 4-octet
+     length, user attributes 0xD1 | 4-octet length, and the hashed signature data is followed by
+     version | 0xFF | its 4-octet (v5: 8-octet) length -- evaluated as a template from the builders
+     (signer and verifier share these routines, so no test can see a deviation from the standard)."""
 from .. import evalx
 from ..pieceeval import PieceEval
 from ..facts import AnalysisBroken
@@ -26,6 +34,8 @@ def run(ctx):
     r20c(ctx)
     r20d(ctx)
     r20e(ctx)
+    r20f(ctx)
+    r20g(ctx)
 
 
 def hash_enum(prog):
@@ -301,3 +311,146 @@ def r20e(ctx):
             ctx.bad('R20e', key, 'an exit returns %s, which can be the success code, on a path where gcry_pk_verify did not report success: '
                     'a malformed signature is reported as valid' % (bad[0] if bad else 'nothing'), f)
     ctx.floor('R20e', n, 4)
+
+
+def r20f(ctx):
+    from .. import seqeval
+    prog = ctx.prog
+    C = 'CallasDonnerhackeFinneyShawThayerRFC4880::'
+
+    def be(n, k):
+        return [(n >> (8 * (k - 1 - j))) & 0xFF for j in range(k)]
+    n_ok = 0
+    for name in ('BinaryDocumentHashV3', 'BinaryDocumentHash', 'BinaryDocumentHashV5', 'StandaloneHashV3', 'StandaloneHash', 'StandaloneHashV5',
+                 'CertificationHashV3', 'CertificationHash', 'CertificationHashV5', 'KeyHashV3', 'KeyHash', 'KeyHashV5'):
+        ver = 3 if name.endswith('V3') else (5 if name.endswith('V5') else 4)
+        for idx, f in enumerate(prog.fn(C + name)):
+            pn = [p['n'] for p in f['params']]
+            vecp = [p['n'] for p in f['params'] if 'vector<unsigned char' in p['t'] and 'const' in p['t']]
+            strp = [p['n'] for p in f['params'] if 'basic_string' in p['t'] and 'const' in p['t']]
+            key = 'R20f:%s:%s' % (name, pn[0])
+            bad = None
+            evaluated = 0
+            for scen in (0, 1):
+                sizes = {}
+                base = 0x1234
+                for i, v in enumerate(vecp):
+                    sizes[v] = base + 0x1111 * i
+                for i, v in enumerate(strp):
+                    sizes[v] = 0x01020304 + i
+                if name.startswith('Certification') and ver != 3 and len(vecp) >= 3:
+                    sizes[vecp[1]] = 0 if scen == 0 else 0x0A0B0C0D       # uat empty / present
+                elif scen == 1:
+                    break
+                # the hashed signature data is the last constant vector parameter
+                trailer = vecp[-1]
+                sizes[trailer] = 0x0A0B0C0D if ver != 3 else 5
+
+                def K(x):
+                    return ([0x99] + be(sizes[x], 2) if ver != 5 else [0x9A] + be(sizes[x], 4)) + [('blk', x)]
+                S = [('blk', trailer)] + ([] if ver == 3 else ([ver, 0xFF] + be(sizes[trailer], 4 if ver == 4 else 8)))
+                if name.startswith('BinaryDocument'):
+                    want = ([('blk', vecp[0])] if len(vecp) == 2 else []) + S
+                elif name.startswith('Standalone'):
+                    want = S
+                elif name.startswith('KeyHash'):
+                    want = [x for v in vecp[:-1] for x in K(v)] + S
+                elif name == 'CertificationHashV3':
+                    want = K(vecp[0]) + [('blk', strp[0])] + S
+                else:
+                    uid, uat = strp[0], vecp[1]
+                    want = K(vecp[0]) + ([0xB4] + be(sizes[uid], 4) + [('blk', uid)] if sizes[uat] == 0 else [0xD1] + be(sizes[uat], 4) + [('blk', uat)]) + S
+                try:
+                    got = seqeval.SeqEval(prog, f, sizes).run()
+                except evalx.NotEvaluable as ex:
+                    got = None
+                    bad = ('note', 'not evaluable: %s' % ex)
+                    break
+                if got is None:
+                    bad = ('note', 'no hash call over a locally built sequence found')
+                    break
+                evaluated += 1
+                if got != want:
+                    def sh(seq):
+                        return ' '.join('%02X' % x if isinstance(x, int) else '<%s>' % x[1] for x in seq)
+                    bad = ('bad', 'hash input is  %s  but the standard prescribes  %s' % (sh(got), sh(want)))
+                    break
+            if bad is None:
+                n_ok += 1
+                ctx.ok('R20f', key, 'hash input framing matches the standard (version %d)' % ver, f)
+            elif bad[0] == 'note':
+                ctx.note('R20f', key, bad[1], f)
+            else:
+                ctx.bad('R20f', key, bad[1], f)
+    ctx.floor('R20f', n_ok, 16)
+
+
+def r20g(ctx):
+    """text signatures hash the document with line endings normalised to <CR><LF> (RFC 4880 5.2.1):
+    octets may be *inserted*, but an iteration of the canonicalising loop that appends nothing of the
+    current octet removes document content from what is signed"""
+    prog = ctx.prog
+    C = 'CallasDonnerhackeFinneyShawThayerRFC4880::'
+    n = 0
+    for name in ('TextDocumentHashV3', 'TextDocumentHash', 'TextDocumentHashV5'):
+        for f in prog.fn(C + name):
+            dp = [p for p in f['params'] if 'vector<unsigned char' in p['t'] and 'const' in p['t']]
+            if len(dp) < 2:
+                continue            # the file-based variant streams the document elsewhere
+            data = dp[0]
+            a = ctx.analysis(f)
+            T = a.T
+            key = 'R20g:%s' % name
+            dloc = ('v', data['id'], data['n'])
+            heads = []
+            for h, lb in a.loop_bound.items():
+                if lb and lb[1] == '<' and lb[3] == 1 and T.is_int(lb[2], 0):
+                    bn = T.node(lb[0])
+                    if bn[0] == 'mc' and bn[1].split('::')[-1] == 'size' and a.read(dloc, a.instate[h]) is not None and T.node(bn[2]) == T.node(a.read(dloc, a.instate[h])):
+                        heads.append(h)
+            if not heads:
+                # the whole document may be appended as a block instead
+                whole = any(ev[1].split('::')[-1] == 'insert' and any(T.contains(x, lambda nn: nn == ('param', data['n'])) for x in ev[3]) for nid, ev in a.all_events('mcall'))
+                n += 1
+                if whole:
+                    ctx.ok('R20g', key, 'the document is appended to the hash input as a whole', f)
+                else:
+                    ctx.note('R20g', key, 'no loop over the document found; not evaluated', f)
+                continue
+            h = heads[0]
+            body = a.loop_nodes[h]
+            iv = T.mk('iv', h)
+            appends = set()
+            for nid, ev in a.all_events('mcall'):
+                if nid in body and ev[1].split('::')[-1] == 'push_back' and ev[3]:
+                    v = ev[3][0]
+                    vn = T.node(v)
+                    if vn[0] == 'ix' and vn[2] == iv and T.contains(vn[1], lambda nn: nn == ('param', data['n'])):
+                        appends.add(nid)
+            byid = {x.id: x for x in a.cfg.rpo}
+            hn = byid[h]
+            # is there a way round the loop that appends nothing of the current octet?
+            start = [s_ for s_ in hn.succ]
+            seen = set()
+            st = []
+            for s_ in start:
+                st.append(s_)
+            skipping = False
+            while st:
+                x = st.pop()
+                if x.id in seen or x.id in appends:
+                    continue
+                if x.id == h:
+                    skipping = True
+                    break
+                seen.add(x.id)
+                if x.id not in body:
+                    continue
+                st.extend(x.succ)
+            n += 1
+            if appends and not skipping:
+                ctx.ok('R20g', key, 'every iteration of the canonicalising loop appends the current document octet', f)
+            else:
+                ctx.bad('R20g', key, 'an iteration of the canonicalising loop can finish without appending the current document octet: '
+                        'that octet is not covered by the signature (it can be inserted or removed without invalidating it)', f)
+    ctx.floor('R20g', n, 3)
